@@ -66,6 +66,11 @@ def main(tier_: str) -> int:
     with scratch() as d:
         ra = run_tlc('IsoTimeMC', f'IsoTimeMC_{tier_}.cfg', workdir=d, workers=16, timeout=1800, heap='8g')
         tlc_must_pass(ra, 'IsoTimeMC (A)')
+        # the same invariants over unbounded integers (SMT): every header integer / length, resp. every whole-second part
+        from harness.core import run_apalache, apalache_must_not_refute
+        apa = run_apalache('IsoDurationApa', workdir=d)
+        apalache_must_not_refute(apa, 'IsoDurationApa')
+        out.coverage['apalache_unbounded'] = {k: v for k, v in apa.items() if k != 'tail'}
         # ---- durations ----------------------------------------------------------------------
         secs = [0, 1, 59, 60, 3599, 3600, 86399, 86400, 360000]
         if tier_ == 'quick':
